@@ -191,40 +191,62 @@ def _job(job) -> List[Dict[str, Any]]:
             if want is None:
                 out.append(game._inst("R1.1", "UNDECIDED", roles, "rate", c, f"no closed form is transcribed for a model named {roles.short}"))
                 continue
+            def leaves(rels, depth):
+                """finite case analysis on comparisons between two input-dependent terms that a run leaves open (special-case paths for
+                'identical' team mates and the like): the three relations are assumed in turn, at most `depth` comparisons deep"""
+                run_ = game.run_rate_seeded(prog, roles, sizes, lv, rels, limit_sigma=False)
+                opens = [p_ for p_ in game.open_compares(run_) if not any({p_[0], p_[1]} == {r_[0], r_[1]} for r_ in rels)]
+                if not opens or depth == 0:
+                    return [(rels, run_)]
+                a_, b_ = opens[0]
+                res_ = []
+                for rel_ in ("LT", "EQ", "GT"):
+                    res_.extend(leaves(tuple(rels) + ((a_, b_, rel_),), depth - 1))
+                return res_
+
             try:
-                run = game.run_rate(prog, roles, sizes, lv)
-                bad = run.ok()
+                lf = leaves((), 2)
             except Exception as e:  # noqa: BLE001
-                bad = f"abstract evaluation failed: {type(e).__name__}: {e}"
-            if bad:
-                out.append(game._inst("R1.1", "UNDECIDED", roles, "rate", c, bad))
+                out.append(game._inst("R1.1", "UNDECIDED", roles, "rate", c, f"abstract evaluation failed: {type(e).__name__}: {e}"))
                 continue
             verdict, msg = "HOLDS", ""
-            for who, (wmu, wsg) in want.items():
-                for name, wt_ in (("mu", wmu), ("sigma", wsg)):
-                    got = game.poly_of(run.field(who, name))
-                    wp = to_poly(wt_)
-                    if got is None or wp is None:
-                        verdict, msg = "UNDECIDED", f"the {name} stored for player {who[1]} of team {who[0]} has no term"
-                        continue
-                    s = game.same(got, wp)
-                    if s is True:
-                        continue
-                    if s is None:
-                        if verdict == "HOLDS":
-                            verdict, msg = "UNDECIDED", f"the {name} of player {who[1]} of team {who[0]} could not be compared with the closed form"
-                        continue
-                    calls: set = set()
-                    _calls_in(got, calls)
-                    foreign = sorted(x for x in calls if x not in KNOWN_CALLS)
-                    if foreign:
-                        if verdict == "HOLDS":
-                            verdict, msg = "UNDECIDED", (f"the code's term for the {name} of player {who[1]} of team {who[0]} is built from functions the comparison does not know ({foreign}): "
-                                                         "not comparable with the transcribed closed form")
-                        continue
-                    verdict = "VIOLATED"
-                    msg = f"the posterior {name} of player {who[1]} of team {who[0]} is not the closed form; code minus closed form = {show(p_add(got, wp, -1), 260)}"
-                    break
+            for rels, run in lf:
+                case = ("" if not rels else " [case " + ", ".join(f"{show(to_poly(a), 40)} {dict(LT='<', EQ='==', GT='>')[r]} {show(to_poly(b), 40)}" for a, b, r in rels) + "]")
+                bad = run.ok()
+                if bad:
+                    if verdict == "HOLDS":
+                        verdict, msg = "UNDECIDED", bad + case
+                    continue
+                amap, unsolved = game.equation_substitution(rels)
+                for who, (wmu, wsg) in want.items():
+                    for name, wt_ in (("mu", wmu), ("sigma", wsg)):
+                        gv = run.field(who, name)
+                        got = to_poly(gv.sym, amap) if getattr(gv, "sym", None) is not None else game.poly_of(gv)
+                        wp = to_poly(wt_, amap)
+                        if got is None or wp is None:
+                            if verdict == "HOLDS":
+                                verdict, msg = "UNDECIDED", f"the {name} stored for player {who[1]} of team {who[0]} has no term" + case
+                            continue
+                        s = game.same(got, wp)
+                        if s is True:
+                            continue
+                        if s is None or unsolved:
+                            if verdict == "HOLDS":
+                                verdict, msg = "UNDECIDED", f"the {name} of player {who[1]} of team {who[0]} could not be compared with the closed form" + case
+                            continue
+                        calls: set = set()
+                        _calls_in(got, calls)
+                        foreign = sorted(x for x in calls if x not in KNOWN_CALLS)
+                        if foreign:
+                            if verdict == "HOLDS":
+                                verdict, msg = "UNDECIDED", (f"the code's term for the {name} of player {who[1]} of team {who[0]} is built from functions the comparison does not know ({foreign}): "
+                                                             "not comparable with the transcribed closed form" + case)
+                            continue
+                        verdict = "VIOLATED"
+                        msg = f"the posterior {name} of player {who[1]} of team {who[0]} is not the closed form{case}; code minus closed form = {show(p_add(got, wp, -1), 260)}"
+                        break
+                    if verdict == "VIOLATED":
+                        break
                 if verdict == "VIOLATED":
                     break
             out.append(game._inst("R1.1", verdict, roles, "rate", c, msg))
